@@ -85,11 +85,12 @@ SRC_FUNCS = ["SizeOfVarint", "SizeOfTagKey", "SizeOfZigZag", "EncodeVarint", "En
              "Decoder.Mode", "Decoder.SetMode", "Decoder.Seek", "Decoder.Reset", "Decoder.More", "Decoder.Offset", "Decoder.DecodeTag",
              "Decoder.DecodeBool", "Decoder.decodeBytes", "Decoder.DecodeUInt32", "Decoder.DecodeUInt64", "Decoder.DecodeInt32",
              "Decoder.DecodeInt64", "Decoder.DecodeSInt32", "Decoder.DecodeSInt64", "Decoder.DecodeFixed32", "Decoder.DecodeFixed64", "Decoder.Skip",
+             "Decoder.DecodeFloat32", "Decoder.DecodeFloat64",
              "Encoder.EncodeBool", "Encoder.EncodeUInt32", "Encoder.EncodeUInt64", "Encoder.EncodeInt32", "Encoder.EncodeInt64",
              "Encoder.EncodeSInt32", "Encoder.EncodeSInt64", "Encoder.EncodeMapEntryHeader"]
 # files whose checking depends on the generated file: a failure confined to these only concerns the properties stated there
 SRC_TIED = ("Src/SrcWire.v", "Src/SrcLink.v", "Src/SrcEncProofs.v", "Src/SrcDecProofs.v", "Src/SrcCompose.v", "Src/SrcDecoderLink.v", "Src/SrcDecMethods.v",
-            "Src/SrcDecSkip.v", "Src/SrcSafe.v", "Src/SrcEncoderLink.v", "Src/SrcEncMethods.v", "Src/SrcEncCompose.v", "Props/C01src.v", "Props/C02src.v", "Props/C03src.v")
+            "Src/SrcDecSkip.v", "Src/SrcDecFloat.v", "Src/SrcSafe.v", "Src/SrcEncoderLink.v", "Src/SrcEncMethods.v", "Src/SrcEncCompose.v", "Props/C01src.v", "Props/C02src.v", "Props/C03src.v")
 
 
 def _src_hash():
